@@ -38,6 +38,7 @@ type genFeat struct {
 	returnAfterCl bool // `return` statements after a closure literal in the same function (#7: base rejected)
 	fnTypeParams  bool // function-typed parameters with parameters (#8: base rejected)
 	fnLists       bool // list literals with two function values (#48: base rejected)
+	fnAssign      bool // assignment of a function value to a function-typed variable (base rejected while the finding is open)
 	libModule     bool
 }
 
@@ -581,7 +582,7 @@ func (g *gen) assignable() []gvar {
 	var out []gvar
 	for i := len(g.scopes) - 1; i >= 0; i-- {
 		for _, v := range g.scopes[i] {
-			if v.t.K != mutate.KFn && !strings.HasPrefix(v.name, "e") && !strings.HasPrefix(v.name, "it") {
+			if (v.t.K != mutate.KFn || g.feat.fnAssign) && !strings.HasPrefix(v.name, "e") && !strings.HasPrefix(v.name, "it") {
 				out = append(out, v)
 			}
 		}
@@ -744,7 +745,10 @@ func (g *gen) assign(sb *strings.Builder, v gvar) {
 		}
 	}
 	if t.K == mutate.KFn {
-		return
+		if !g.feat.fnAssign {
+			return
+		}
+		g.tags[TagFnAssign] = true
 	}
 	op := "="
 	switch t.K {
@@ -951,12 +955,13 @@ const (
 	KFFnList       = "KF-c03-fn-list"
 	KFMatchDiverge = "KF-c03-match-diverge"
 	KFLoopNever    = "KF-c03-loop-never"
+	KFFnAssign     = "KF-c03-fn-assign"
 )
 
 func genCases(tier string, seed uint64) []fw.Case {
-	n := 400
+	n := 300
 	if tier == "thorough" {
-		n = 6000
+		n = 5000
 	}
 	r := fw.NewRng(seed ^ 0xC03)
 	var out []fw.Case
@@ -971,26 +976,10 @@ func genCases(tier string, seed uint64) []fw.Case {
 		}
 		p := Payload{Name: id, Group: "gen", Mods: mods, Main: true, Construct: "gen"}
 		if len(tags) > 0 {
-			// the base program itself uses a construct a finding poisons: one case carrying the tags
+			// the base program itself uses a construct a finding poisons: all its cases carry the tags
 			p.Construct = "gen-" + strings.Join(tags, "+")
-			out = append(out, fw.MkCase(id, "gen", p, tags...))
-			return
 		}
-		pm := p
-		pm.SkipTags = true
-		out = append(out, fw.MkCase(id, "gen", pm))
-		tagSet := map[string]bool{}
-		for _, s := range parsed.Sites {
-			for _, t := range s.Tags {
-				tagSet[t] = true
-			}
-		}
-		for _, t := range mutate.SortedKeys(boolCount(tagSet)) {
-			pt := p
-			pt.Only = t
-			pt.NoTypes = true
-			out = append(out, fw.MkCase(id+"-tag-"+t, "gen", pt, t))
-		}
+		out = append(out, splitCases(id, "gen", p, tags, parsed)...)
 	}
 	// main workload: poisoned features are switched off while their finding is open
 	main := genFeat{
@@ -1013,6 +1002,9 @@ func genCases(tier string, seed uint64) []fw.Case {
 		if !fw.KFOpen(KFFnList) && r.Chance(1, 25) {
 			f.fnLists = true
 		}
+		if !fw.KFOpen(KFFnAssign) && r.Chance(1, 10) {
+			f.fnAssign = true
+		}
 		emit(fmt.Sprintf("c03-gen-%d", i), ps, f, "")
 	}
 	// poisoned workloads: a few dozen programs that do use the construct of an open finding
@@ -1024,6 +1016,7 @@ func genCases(tier string, seed uint64) []fw.Case {
 		{KFClosureCtx, TagClosureCtx, func(f *genFeat) { f.returnAfterCl = true }},
 		{KFFnTypeParams, TagFnTypeParams, func(f *genFeat) { f.fnTypeParams = true }},
 		{KFFnList, TagFnList, func(f *genFeat) { f.fnLists = true }},
+		{KFFnAssign, TagFnAssign, func(f *genFeat) { f.fnAssign = true }},
 	} {
 		if !fw.KFOpen(po.kf) {
 			continue
